@@ -28,6 +28,7 @@ import (
 	govtypes "github.com/cosmos/cosmos-sdk/x/gov/types"
 	stakingtypes "github.com/cosmos/cosmos-sdk/x/staking/types"
 	"github.com/ethereum/go-ethereum/common"
+	evmtypes "github.com/evmos/ethermint/x/evm/types"
 
 	"github.com/functionx/fx-core/v8/testutil/helpers"
 	fxtypes "github.com/functionx/fx-core/v8/types"
@@ -281,7 +282,11 @@ func TestC10(t *testing.T) {
 							t.Fatal(err)
 						}
 						tr := evmx.NewTracer()
-						res, err := evmx.SendTraced(cctx, app, tx, tr)
+						var res *evmtypes.MsgEthereumTxResponse
+						if pr := hx.Try(func() error { res, err = evmx.SendTraced(cctx, app, tx, tr); return nil }); pr != "ok" {
+							out.Violate(fmt.Sprintf("precompile call panicked (%s): method=%s kind=%s switch=%s", pr, cs.method, kind, w.class))
+							continue
+						}
 						if err != nil || res.Failed() || len(tr.Frames) < 2 {
 							t.Fatalf("unexpected outer failure: %v %v", err, res)
 						}
